@@ -14,7 +14,7 @@ cp -r "$src"/* "$dst"/ 2>/dev/null
 git -C /repo worktree remove --force "$wt" >/dev/null 2>&1
 git -C /repo worktree add -q --detach "$wt" HEAD || exit 3
 res="$dst/result.txt"; : > "$res"
-if ! git -C "$wt" apply "$src/patch.diff"; then echo "patch_applies=no" >> "$res"; git -C /repo worktree remove --force "$wt"; exit 3; fi
+if ! { git -C "$wt" apply "$src/patch.diff" 2>/dev/null || (cd "$wt" && patch -p1 -F3 -s --no-backup-if-mismatch < "$src/patch.diff"); }; then echo "patch_applies=no" >> "$res"; git -C /repo worktree remove --force "$wt"; exit 3; fi
 echo "patch_applies=yes" >> "$res"
 # 1. existing tests with the patch
 t=$(cd "$wt" && cargo test --workspace --no-fail-fast --offline 2>&1)
